@@ -17,6 +17,8 @@ import (
 // valCase is a model value (the case of the value-level checks C02, C03, C05, C10).
 type valCase struct {
 	P m.Packet
+	// Junk != 0 (C03, XR only): stale values in the blocks' exported header fields before Marshal
+	Junk uint32 `json:",omitempty"`
 }
 
 // listCase is a list of model values.
